@@ -227,17 +227,17 @@ def _catalogue(request):
     op = request.op_code
     if isinstance(request, att.ATT_Read_By_Group_Type_Request):
         mk = lambda items: att.ATT_Read_By_Group_Type_Response(length=6, attribute_data_list=b''.join(struct.pack('<HH', a, b) + b'\x00\x18' for a, b in items))
-        return [mk([(s, hi)]), mk([(s, s)]), mk([(s, 0xFFFF)]), mk([(max(1, s - 1), max(1, s - 1))]), mk([(s, max(0, s - 1))]), mk([]), mk([(s, hi), (hi, hi)]), _err(op), _err(op, 0x0E)]
+        return [mk([(s, hi)]), mk([(s, s)]), mk([(s, 0xFFFF)]), mk([(max(1, s - 1), max(1, s - 1))]), mk([(s, max(0, s - 1))]), mk([]), mk([(s, hi), (hi, hi)]), _err(op), _err(op, 0x0E), mk([(s, s), (max(1, s - 1), max(1, s - 1))])]
     if isinstance(request, att.ATT_Find_By_Type_Value_Request):
         mk = lambda items: att.ATT_Find_By_Type_Value_Response(handles_information_list=b''.join(struct.pack('<HH', a, b) for a, b in items))
-        return [mk([(s, hi)]), mk([(s, s)]), mk([(s, 0xFFFF)]), mk([(max(1, s - 1), max(1, s - 1))]), mk([(s, max(0, s - 1))]), mk([]), _err(op), _err(op, 0x0E)]
+        return [mk([(s, hi)]), mk([(s, s)]), mk([(s, 0xFFFF)]), mk([(max(1, s - 1), max(1, s - 1))]), mk([(s, max(0, s - 1))]), mk([]), _err(op), _err(op, 0x0E), mk([(s, s), (max(1, s - 1), max(1, s - 1))])]
     if isinstance(request, att.ATT_Read_By_Type_Request):
         # characteristic declarations (7 bytes: handle, props, value handle, uuid16) or include declarations (8 bytes)
         mk = lambda hs: att.ATT_Read_By_Type_Response(length=7, attribute_data_list=b''.join(struct.pack('<HBHH', h, 2, min(0xFFFF, h + 1), 0x2A00) for h in hs))
-        return [mk([s]), mk([s, hi]), mk([max(1, s - 1)]), mk([0xFFFF]), mk([0]), mk([]), _err(op), _err(op, 0x0E)]
+        return [mk([s]), mk([s, hi]), mk([max(1, s - 1)]), mk([0xFFFF]), mk([0]), mk([]), _err(op), _err(op, 0x0E), mk([s, max(1, s - 1)]), mk([hi, s, max(1, s - 1)])]
     if isinstance(request, att.ATT_Find_Information_Request):
         mk = lambda hs: att.ATT_Find_Information_Response(format=1, information_data=b''.join(struct.pack('<HH', h, 0x2902) for h in hs))
-        return [mk([s]), mk([s, hi]), mk([max(1, s - 1)]), mk([0xFFFF]), mk([0]), mk([]), _err(op), _err(op, 0x0E)]
+        return [mk([s]), mk([s, hi]), mk([max(1, s - 1)]), mk([0xFFFF]), mk([0]), mk([]), _err(op), _err(op, 0x0E), mk([s, max(1, s - 1)]), mk([hi, s, max(1, s - 1)])]
     return [_err(op)]
 
 
@@ -260,12 +260,12 @@ def _canary_no_progress_check():
 _PROCS = ['discover_services', 'discover_service', 'discover_included_services', 'discover_characteristics', 'discover_descriptors', 'discover_attributes']
 
 
-@harness(pre=['0 <= r1 <= 8 and 0 <= r2 <= 8 and 0 <= r3 <= 8'], family='termination', twin=True, kernels=K_CLI, timeout=(120, 400),
+@harness(pre=['0 <= r1 <= 9 and 0 <= r2 <= 9 and 0 <= r3 <= 9'], family='termination', twin=True, kernels=K_CLI, timeout=(120, 400),
          canaries=[('loop-without-progress-check', _canary_no_progress_check)],
-         grids=[(('quick',), {'proc': _PROCS, 'r4': [0, 2, 5]}), (('thorough',), {'proc': _PROCS, 'r4': [0, 1, 2, 3, 4, 5, 6, 7, 8]})],
-         bounds='each discovery procedure against a peer that answers up to 4 rounds with responses picked by symbolic indices from the adversarial catalogue (then Attribute Not Found): every request after the first starts strictly above the previous one (the loop variant), at most 5 requests are needed, and the procedure returns or raises')
+         grids=[(('quick',), {'proc': _PROCS, 'r4': [0, 2, 5, 8]}), (('thorough',), {'proc': _PROCS, 'r4': [0, 1, 2, 3, 4, 5, 6, 7, 8, 9]})],
+         bounds='each discovery procedure against a peer that answers up to 4 rounds with responses picked by symbolic indices from the adversarial catalogue (empty lists, handles below the requested range, ranges ending below their start, lists that start in range and end below it, errors; then Attribute Not Found): every request after the first starts strictly above the previous one (the loop variant), at most 5 requests are needed, and the procedure returns or raises')
 def discovery_terminates(r1: int, r2: int, r3: int, r4: int, proc: str) -> bool:
-    picks = [C(r1, 0, 8), C(r2, 0, 8), C(r3, 0, 8), r4]
+    picks = [C(r1, 0, 9), C(r2, 0, 9), C(r3, 0, 9), r4]
     with untraced():
         with detloop.running() as loop:
             cb = ClientBearer(loop, 23)
@@ -305,6 +305,58 @@ def discovery_terminates(r1: int, r2: int, r3: int, r4: int, proc: str) -> bool:
                 if a is not None and b is not None and b <= a:
                     return False
             return True
+
+
+def svc_end(server):
+    return next(a.end_group_handle for a in server.attributes if isinstance(a, gatt.Service) and a.uuid == U(0x1800))
+
+
+@harness(pre=['0 <= which <= 2 and 0 <= m <= 1'], family='discovery', twin=True, kernels=K_CLI, timeout=(120, 400),
+         bounds='a service with three characteristics, each followed by a user description and (for two of them) a CCCD: discover_characteristics filtered by ONE of the three UUIDs (symbolic) at ATT_MTU 23 or 48 returns exactly that characteristic with the handle range that ends before the next characteristic, and discover_descriptors on it returns exactly its own descriptors')
+def filtered_characteristic_discovery(which: int, m: int) -> bool:
+    which, m = C(which, 0, 2), C(m, 0, 1)
+    with untraced():
+        with detloop.running() as loop:
+            chars = [gatt.Characteristic(U(0x2A00 + j), PR.READ | (PR.NOTIFY if j != 1 else 0), P.READABLE, bytes([j]),
+                                         descriptors=[gatt.Descriptor(U(0x2901), P.READABLE, bytes([0x40 + j]))]) for j in range(3)]
+            client, server, cb, sb, dev = wire(loop, [gatt.Service(U(0x1800), chars), gatt.Service(U(0x1801), [gatt.Characteristic(U(0x2A05), PR.READ, P.READABLE, b'z')])], [23, 48][m])
+
+            async def run():
+                svc = (await client.discover_service(U(0x1800)))[0]
+                found = await client.discover_characteristics([U(0x2A00 + which)], svc)
+                if len(found) != 1:
+                    return None
+                c = found[0]
+                ds = await c.discover_descriptors()
+                return c, [(d.handle, d.type) for d in ds]
+            t = loop.create_task(run())
+            if not _finish(loop, t) or t.exception() is not None or t.result() is None:
+                return False
+            c, ds = t.result()
+            real = chars[which]
+            # the characteristic's own attributes: everything after its value up to the next declaration (value handle - 1) or the end of the service
+            end = (chars[which + 1].handle - 2) if which < 2 else svc_end(server)
+            want = [(a.handle, a.type) for a in server.attributes if real.handle < a.handle <= end]
+            return c.handle == real.handle and c.uuid == real.uuid and ds == want and c.end_group_handle == end
+
+
+@harness(pre=['0 <= l <= 10 and 0 <= v0 <= 255 and 0 <= how <= 1'], family='notify', twin=True, kernels=K_CLI + ('bumble.gatt_client.Client.on_att_handle_value_indication', 'bumble.gatt_server.Server.indicate_subscriber'), timeout=(120, 400),
+         bounds='the real client receives an indication for a handle it has NO local subscriber for (the CCCD was written raw, or the server forces the indication): it still confirms, so the real server\'s indicate_subscriber returns without waiting for its time-out; value length 0..10 symbolic')
+def indication_without_local_subscriber_is_confirmed(l: int, v0: int, how: int) -> bool:
+    how = C(how, 0, 1)
+    with detloop.running() as loop:
+        with untraced():
+            ch = gatt.Characteristic(U(0x2A00), PR.READ | PR.INDICATE, P.READABLE, b'')
+            client, server, cb, sb, dev = wire(loop, [gatt.Service(U(0x1800), [ch])], 23)
+        ch.value = bytes([v0 for _ in range(l)])
+        if how == 0:
+            server.subscribers[sb] = {ch.handle: b'\x02\x00'}
+            t = loop.create_task(server.indicate_subscriber(sb, ch))
+        else:
+            t = loop.create_task(server.indicate_subscriber(sb, ch, force=True))
+        for _ in range(20):
+            loop.run_ready()             # no clock advance: the 30 s time-out must not be what ends the call
+        return t.done() and t.exception() is None and [p for p in cb.requests if p[0] == 0x1E] == [b'\x1e']
 
 
 # ------------------------------------------------------------------------------------------
